@@ -193,4 +193,28 @@ CHECKS = {
         assumptions=HIST_ASSUME,
         jobs=[dict(test="TestC03", quick=T(8, 10), thorough=T(16, 200, 0, 3000))],
     ),
+    "C05": dict(
+        level="exploration",
+        level_text="(a) Candidate momentums: at each frontier of a follower the honest next momentum and ~35 derived candidates "
+                   "(13 field faults re-signed where the key allows, re-timed to other slots and signed by each pillar, equal / "
+                   "earlier / unaligned / far-future timestamps, every other pillar or a non-pillar signing the honest content, "
+                   "replayed older momentums) go through the RLP codec into the real acceptance path (ChainBridge.InsertChain); "
+                   "every ADOPTED candidate must satisfy the statement's predicate, with the elected pillar taken from (b). "
+                   "(b) A reference election written in the checker (weights = sum of backers' ZNN balances read from the "
+                   "account stores at the proof momentum, order by weight desc / name, seeded selection and shuffle) must equal "
+                   "GetMomentumProducer for all 30 slots of every tick, on the producer (live + warm cache), on a follower "
+                   "synced in batches and queried in permuted order, after a restart with a cold cache, and (TestC05Reorg) after "
+                   "a reorganisation; producers must be active registered pillars at the proof momentum; unaligned timestamps "
+                   "have no producer. Configurations: 1..40 pillars, equal and distinct weights, delegations / balances / "
+                   "registrations moving during the history, slot skips of up to 70 slots.",
+        level_note="Go's math/rand permutation with the proof height as seed is taken as the definition of the shuffle. The 'not in "
+                   "the future' bound uses the wall clock in the verifier and is probed years ahead, not at its 10 s edge.",
+        technique="reference-model property testing (rapid) of the election; mutation-based testing of candidate momentums against a predicate",
+        rule="(a) non-trivial item = candidate kind that still carries a valid signature; (b) non-trivial = chain spanning >=3 ticks "
+             "evaluated on >=2 nodes with different cache state (always 3 here)",
+        assumptions=HIST_ASSUME,
+        jobs=[dict(test="TestC05Election", quick=T(4, 10), thorough=T(8, 150, 0, 3000)),
+              dict(test="TestC05Candidates", quick=T(3, 8), thorough=T(6, 120, 0, 3000)),
+              dict(test="TestC05Reorg", quick=T(1, 8), thorough=T(2, 100, 0, 3000))],
+    ),
 }
